@@ -15,7 +15,7 @@ DEFAULT_WEIGHTS = dict(
     connect=6, end=2, quit=1, join=14, part=5, kick=5, topic=4, invite=4, cmode=14, umode=4,
     nick=5, privmsg=10, notice=6, away=2, oper=2, kill=1, wallops=2, stats=1, die=0.3, squit=0.3,
     names=3, who=3, whois=3, list=2, lusers=2, ison=1, userhost=1, whowas=1, chanlist=2, cquery=1,
-    cap=1.5,
+    cap=1.5, half=2.5, half_complete=2.5, half_end=1.5,
 )
 
 ENDINGS = ["close", "rst", "halfclose", "midline", "badutf8"]
@@ -119,8 +119,10 @@ class Gen:
         free = [n for n in self.nicks if n not in self.m.users]
         if not free:
             return None
-        # prefer nicks that were used before (WHOWAS, re-registration after an ending)
-        n = self.r.choice(free)
+        # a nickname that an unfinished registration has claimed is still free for everybody else
+        claimed = [self.m.conn[h].get("claim") for h in self.halves()]
+        claimed = [c for c in claimed if c in free]
+        n = self.r.choice(claimed) if claimed and self.r.random() < 0.5 else self.r.choice(free)
         return ("connect", dict(nick=n, user=USERS.get(n, n), realname="R %s" % n,
                                 password=self.server_password,
                                 multi_prefix=self.r.random() < self.mp_rate))
@@ -137,6 +139,38 @@ class Gen:
             cmd["sub"] = "LS"
             cmd["line"] = "CAP LS 302"
         return ("act", r.choice(live), cmd)
+
+    def halves(self):
+        return [cid for cid, c in self.m.conn.items() if cid != 0 and c["nick"] is None and "claim" in c
+                and cid in self.w.clients]
+
+    def g_half(self, live):
+        """an unfinished registration: a connection that only claims a nickname (taken, or free for now)"""
+        if len(self.halves()) >= 2 or not live:
+            return None
+        r = self.r
+        if r.random() < 0.4:
+            nick = self.some_nick(1.0)
+        else:
+            free = [n for n in self.nicks if n not in self.m.users]
+            if not free:
+                return None
+            nick = r.choice(free)
+        if nick == "Mon":
+            return None
+        return ("half_open", nick, self.server_password)
+
+    def g_half_complete(self, live):
+        h = self.halves()
+        if not h:
+            return None
+        return ("half_complete", self.r.choice(h), self.r.choice(["hf", "hf2"]))
+
+    def g_half_end(self, live):
+        h = self.halves()
+        if not h:
+            return None
+        return ("end", self.r.choice(h), self.r.choice(["close", "rst", "midline"]))
 
     def g_end(self, live):
         if len(live) < 2:
